@@ -28,7 +28,7 @@ CLAIMS = {
          "Small concurrent client programs (2-4 clients, autocommit and RU/RC transactions, a collector actor, shared keys) run with every gate of fs_db as a scheduling point; TLC searches a linearisation of each recorded call/return history; a panic or an all-blocked state is a violation. The same check judges free-running executions (ordinary goroutines, inline and through gRPC, contents up to 150 000 bytes, many overlapping reads). Recorded defect: a read overtaken by cleanup returns ErrNotFound (known finding, recognised by its schedule and its outcome).", "6 C06"),
  "C07": ("as C06, programs of 2-3 concurrently committing snapshot transactions with intersecting write sets (plus autocommit writers); the L0 conflict rule under linearisation decides first-committer-wins; a TLAPS proof that test-and-publish in one critical section gives first-committer-wins for any number of transactions and keys (proofs/CommitProof.tla)",
          "Every interleaving of the commit micro-steps (registry delete, conflict check, sequence draws, publication, unlink) up to the preemption bound is executed on the real code.", "6 C07"),
- "C08": ("as C06, programs of snapshot readers x multi-key committers x autocommit writers x collector; Begin of a snapshot transaction may linearise after its return (consistency and stability, not recency)",
+ "C08": ("as C06, programs of snapshot readers x multi-key committers x autocommit writers x collector; Begin of a snapshot transaction may linearise after its return (consistency and stability, not recency); a TLAPS proof of all-or-none, stable views and horizon-below-every-open-snapshot for the repaired design with any number of committers, snapshots and keys (proofs/SnapshotProof.tla)",
          "Reads of every snapshot transaction must be explained by one instant of the linearised commit order. The two defects these executions and the L2 model found (a Begin between the publishing draws of a commit; a Begin unregistered while the collector fixes its horizon) were kept as known findings, recognised by schedule and outcome, and are repaired now (sequence.NextN, sequence.Horizon; constants RangeDraw / HorizonLock of FsDbConc.tla).", "6 C08"),
  "C09": ("TLC action property GCInvisible + ReadableHasContent on FsDb.tla, replay of behaviours with the collector at every position; blame by ablation of the GC steps",
          "The collector is enabled at every state of the bounded model; in the real code all reads of all open transactions are compared before/after and for the rest of the behaviour, and a disagreement that disappears when the GC steps are left out is attributed to the collector. A reader held open (ROpen/RFinish in the specification) across overwrites, ends of transactions and collections must deliver the content it began with.", "6 C09"),
